@@ -51,7 +51,7 @@ SPECS["C10"] = {
     ] + [
         {"name": "H3-history", "pkg": "engine", "files": ["engine/c10.go"], "fn": "VerifC10HighestPriorityHistory",
          "what": "arbitrary histories of new/Activate/Skip/Finish over 3 monitors", "reach": ["step"],
-         "quick": {"params": {"L": 4}, "unwind": 40}, "thorough": {"params": {"L": 6}, "unwind": 40}},
+         "quick": {"params": {"L": 6}, "unwind": 40, "wall_s": 600}, "thorough": {"params": {"L": 8}, "unwind": 40, "wall_s": 3000}},
         {"name": "H2-dequeue-order", "pkg": "engine", "files": ["engine/c10.go"], "fn": "VerifC10DequeueOrder",
          "what": "arbitrary Push/Pop sequences on the task queue, 2 cascades, symbolic priorities, rand.Intn symbolic", "reach": ["pop"],
          "quick": {"params": {"S": 5}, "unwind": 40, "wall_s": 300}, "thorough": {"params": {"S": 7}, "unwind": 40, "wall_s": 1500}},
@@ -176,13 +176,17 @@ SPECS["C02"] = {
          "what": "2 workers, all schedules with <=1 (quick) / <=2 (thorough) pre-emptions, depth 1, <=3 events", "reach": ["returned"],
          "quick": {"params": {"WORKERS": 2, "DEPTH": 1, "MAXEVS": 2, "P": 1}, "two_pass": True, "pass1_preempt": 1, "unwind": 40, "wall_s": 600},
          "thorough": {"params": {"WORKERS": 2, "DEPTH": 1, "MAXEVS": 3, "P": 2}, "two_pass": True, "pass1_preempt": 1, "unwind": 40, "wall_s": 3000}},
+        {"name": "H3-ecal-addEventAndWait", "pkg": "interpreter", "files": ["interpreter/common.go", "interpreter/c02.go"], "fn": "VerifC02EcalWait",
+         "what": "ECAL addEventAndWait with two sinks (second on a child event, scope-restricted), failing flags / child / scope symbolic; result list checked", "reach": ["evaluated"],
+         "quick": {"params": {"WORKERS": 1, "P": 0}, "unwind": 60, "wall_s": 600},
+         "thorough": {"params": {"WORKERS": 2, "P": 1}, "unwind": 60, "wall_s": 3000}},
         {"name": "H2-two-cascades", "pkg": "engine", "files": ["engine/c02.go"], "fn": "VerifC02TwoCascades",
          "what": "two cascades in flight, 1 worker sequential (quick) / 2 workers P<=1 (thorough)", "reach": ["second-returned", "all-idle"],
          "quick": {"params": {"WORKERS": 1, "DEPTH": 1, "MAXEVS": 5, "P": 0}, "unwind": 40, "wall_s": 300},
          "thorough": {"params": {"WORKERS": 2, "DEPTH": 1, "MAXEVS": 4, "P": 1}, "unwind": 40, "wall_s": 2400}},
     ],
     "assumptions": ["pre-emption bound", "fair-yield rule for polling loops", "sequential consistency"],
-    "outside": ["> 2 workers", "cascades deeper than 3", "ECAL-level addEventAndWait (same Go code path underneath)"],
+    "outside": ["> 2 workers", "cascades deeper than 3"],
 }
 
 SPECS["C01"] = {
